@@ -10,6 +10,11 @@ ops (see `harness/cmd/drive-frost/main.go`):
   val <v> <src>tgt:share,..> <j:sk,..>   -> x=<group secret> pk=1 | share_sum_mismatch … | not_shamir
   rec <v> <ids>                          -> <recovered> rpk=b
   sig <v> <ids> <msg>                    -> agg=b ver=b
+Pedersen stream (`drive-pedersen`; dealt shares are not observable, outputs only):
+  ped <n> <t> <vals> <sched>             -> ok | err
+  pval <v> <j:sk,..>                     -> x=<group secret> pk=1 | not_shamir | …
+  reshare <t2> <sched>                   -> ok | err
+  rval <v> <j:sk,..>                     -> x=<group secret> pk=1 same=b fresh=b
 -/
 import CharonV.Model.Fr
 import CharonV.Model.FrostGlue
@@ -121,8 +126,57 @@ def checkVal (n t : Nat) (p2p : List (Nat × Nat × Nat)) (sks : List (Nat × Na
   if !degreeLt t sks then throw "not_shamir"
   return lagrangeAt0 (sks.take t)
 
+/-- output check of one validator (Pedersen stream): ids 1..n, reduced scalars, the `n` shares lie on
+one polynomial of degree `< t`; returns the group secret. -/
+def checkOut (n t : Nat) (sks : List (Nat × Nat)) : Except String Nat := do
+  let ids := (List.range n).map (· + 1)
+  if sks.map (·.1) != ids then throw "bad_share_ids"
+  if sks.any (·.2 ≥ r) then throw "share_not_reduced"
+  if !degreeLt t sks then throw "not_shamir"
+  return lagrangeAt0 (sks.take t)
+
 def step (s : St) (line : String) : St × String :=
   match line.splitOn " " with
+  | ["ped", n, t, nv, _sched] =>
+    match n.toNat?, t.toNat?, nv.toNat? with
+    | some n, some t, some nv =>
+      -- validateThreshold: 1 ≤ t ≤ n (t ≤ 0 selects the default threshold; not generated)
+      if t < 1 || t > n || n < 2 || nv < 1 then ({ s with live := false, vals := [] }, "err")
+      else ({ n := n, t := t, nv := nv, live := true, vals := [] }, "ok")
+    | _, _, _ => (s, "bad-op")
+  | ["pval", v, sks] =>
+    if !s.live then (s, "bad-op") else
+    match v.toNat?, parseSks sks with
+    | some v, some sks =>
+      match checkOut s.n s.t sks with
+      | .error e => (s, e)
+      | .ok x =>
+        let vs := (s.vals.filter (·.v != v)) ++ [{ v := v, shares := sks, x := x }]
+        ({ s with vals := vs }, s!"x={toHex32 x} pk=1")
+    | _, _ => (s, "bad-op")
+  | ["reshare", t2, _sched] =>
+    if !s.live then (s, "bad-op") else
+    match t2.toNat? with
+    | some t2 =>
+      if t2 < 1 || t2 > s.n then ({ s with live := false }, "err")
+      else ({ s with t := t2 }, "ok")
+    | none => (s, "bad-op")
+  | ["rval", v, sks] =>
+    if !s.live then (s, "bad-op") else
+    match v.toNat?, parseSks sks with
+    | some v, some sks =>
+      match s.vals.find? (·.v == v) with
+      | none => (s, "bad-op")
+      | some old =>
+        match checkOut s.n s.t sks with
+        | .error e => (s, e)
+        | .ok x =>
+          -- resharing keeps the secret (same group key) and re-randomises every share
+          let same := x == old.x
+          let fresh := (sks.zip old.shares).all fun (a, b) => a.2 != b.2
+          let vs := (s.vals.filter (·.v != v)) ++ [{ v := v, shares := sks, x := x }]
+          ({ s with vals := vs }, s!"x={toHex32 x} pk=1 same={b01 same} fresh={b01 fresh}")
+    | _, _ => (s, "bad-op")
   | ["cer", n, t, nv, _ctx, _sched] =>
     match n.toNat?, t.toNat?, nv.toNat? with
     | some n, some t, some nv =>
